@@ -83,3 +83,12 @@ text("C02",
      "complete enumeration of single in-flight faults on the handshake: every byte offset (xor) and every truncation length of all 7 handshake message types of both modes, plus replacement by the corresponding datagram of an independent or earlier handshake; oracle: the party that received the altered datagram does not complete (client: Handshake() error; server: no connection published / no session established for it); for every handshake both sides completed: equal session id and directional keys (white-box accessor), directional keys distinct and non-zero, keys pairwise distinct across sessions of the run, first data packet decrypts",
      TB + "; masks are one per offset per sweep (not all 255); pairwise key distinctness is checked within a run, not across runs",
      "deterministic simulation with fault injection (exhaustive single-fault sweep over offsets and lengths via a man-in-the-middle on the simulated network)", "DESIGN.md 4 C02")
+
+add("C01", "exploration",
+    [{"name": "counterfeit-peer", "quick_s": 40, "thorough_s": 900}],
+    real=["transport (Client, Server, both PQ handshake modes, certificate parse+policy evaluation)", "certs (issuing and verification)", "authkeys", "keys", "cyclist"],
+    assumptions=["counterfeit peers are the real endpoint code configured with wrong material (valid certificate but another key; own key with certificate for another name / expired at the simulated time / not yet valid / intermediate-typed / untrusted root / self-signed; hidden-mode server without the KEM key); an adversary that deviates from the protocol code itself (omits an absorb) is not simulated - garbage in MAC/tag fields and transplanted messages are enumerated by the C02 sweep",
+                 "ground truth is how the harness built the counterpart (possession, chain validity by construction, key listed), never the verdict of certs.VerifyLeaf"])
+text("C01",
+     "seeded exploration of counterfeit counterparts x handshake mode (discoverable / hidden) x direction x verification policy (client: store+name, store, skip; server: CA store, authorized keys, both, skip) x benign network reordering/duplication, several clients concurrently; certificates are issued inside the simulation so expiry is reached by letting simulated time pass; oracle: client Handshake()==nil only for an authentic server; a discoverable server offers to Accept, and any server delivers data through Handle.ReadMsg, only for an authentic client",
+     TB, "deterministic simulation with fault injection (counterfeit-peer search against a construction-based ground truth)", "DESIGN.md 4 C01")
